@@ -4,9 +4,12 @@ cd /verif
 export VERIF_EVIDENCE_DIR=/verif/.scratch/evidence-seeded
 for d in seeded/C*/; do
   sid=$(basename $d); prop=${sid%%-*}
+  neutral=$(grep -c neutralised_by $d/meta.json)
   git -C /repo diff --quiet || { echo "/repo not clean"; exit 9; }
   git -C /repo apply /verif/$d/patch.diff 2>/dev/null || { echo "$sid: PATCH DOES NOT APPLY"; continue; }
   out=$(./check $prop --tier ${TIER:-quick} 2>&1 | grep -E "VIOLATION|obligations" | cut -c1-160 | tr '\n' ' ')
   git -C /repo checkout -- .
-  if echo "$out" | grep -q VIOLATION; then echo "$sid: CAUGHT by $prop :: $(echo $out | sed 's/.*\(C[0-9]* quick.*\)/\1/')"; else echo "$sid: MISSED by $prop :: $out"; fi
+  if [ "$neutral" != "0" ]; then
+    if echo "$out" | grep -q VIOLATION; then echo "$sid: FALSE ALARM on a neutralised (now behaviour-preserving) seed :: $out"; else echo "$sid: SILENT (neutralised by a later fix, as required)"; fi
+  elif echo "$out" | grep -q VIOLATION; then echo "$sid: CAUGHT by $prop :: $(echo $out | sed 's/.*\(C[0-9]* quick.*\)/\1/')"; else echo "$sid: MISSED by $prop :: $out"; fi
 done
